@@ -7,3 +7,4 @@ pub mod model;
 pub mod runner;
 pub mod scen;
 pub mod world;
+pub mod vclock;
